@@ -419,6 +419,8 @@ fn file_strat(_: &Ctx) -> BoxedStrategy<FileCase> {
                     kt_ratio: Some(0.2),
                     max_step_size: Some(max_step),
                     convergence: None,
+                    verbosity: 0,
+                    start_config: None,
                 },
             }
         })
